@@ -127,14 +127,18 @@ def run_body(h, run, kind):
             return n
         raise I.Unsupported('len of %r' % (v,))
 
-    def for_hook(it, s, env):
+    def enum_hook(it, args, kw):
+        if args and isinstance(args[0], I.Opaque) and args[0].tag == 'source-lines':
+            tok = I.Opaque('numbered-lines')
+            tok.start = kw.get('start', args[1] if len(args) > 1 else 0)
+            return tok
+        return None
+
+    def for_hook(it, s, env, itv):
         # the line loop: one arbitrary iteration
-        itx = s.iter
-        if isinstance(itx, ast.Call) and isinstance(itx.func, ast.Name) and itx.func.id == 'enumerate':
-            src = it.eval(itx.args[0], env)
-            if isinstance(src, I.Opaque) and src.tag == 'source-lines':
-                start = it.eval(itx.keywords[0].value, env) if itx.keywords else (it.eval(itx.args[1], env) if len(itx.args) > 1 else 0)
-                state['start'] = start
+        if True:
+            if isinstance(itv, I.Opaque) and itv.tag == 'numbered-lines':
+                state['start'] = itv.start
                 it.assign(s.target, (i_var, raw), env)
                 state['lines_before'] = list(env.lookup('lines'))
                 state['vars_before'] = {k: env.lookup(k) for k in ('path', 'current_dirs', 'include_dirs', 'base_path') if _has(env, k)}
@@ -155,7 +159,18 @@ def run_body(h, run, kind):
         state['entered'] = True
         return it.inline(f, args, kwargs)
 
-    hooks = {'external': external, 'opaque_attr': opaque_attr, 'len': b_len, 'for': for_hook}
+    truths = {}
+
+    def truth(it, v):
+        if isinstance(v, Raw):
+            # emptiness of a derived string: an uninterpreted predicate of how it was derived
+            key = v.how
+            if key not in truths:
+                truths[key] = z3.Bool('nonempty_%s' % key)
+            return truths[key]
+        return None
+
+    hooks = {'external': external, 'opaque_attr': opaque_attr, 'len': b_len, 'for': for_hook, 'enumerate': enum_hook, 'truth': truth}
     it = I.Interp(run, h.base_it.mods, contracts={'read_lines': rl_contract}, hooks=hooks)
     orig_cm = it.concrete_method
 
